@@ -13,7 +13,7 @@ import (
 )
 
 var ghostBuiltins = map[string]bool{
-	"requires": true, "ensures": true, "assert": true, "assume": true, "imp": true, "iff": true, "old": true,
+	"requires": true, "ensures": true, "ensuresGoal": true, "assert": true, "assume": true, "imp": true, "iff": true, "old": true,
 	"forall": true, "exists": true, "modifiesTail": true, "modifiesElems": true, "modifiesPtr": true, "modifiesAll": true,
 	"freshSlice": true, "sameBase": true, "sameArray": true, "suffixOf": true, "disjointFromTail": true, "bytesEq": true, "strBytesEq": true, "allocated": true, "unchangedElems": true,
 	"covers": true,
@@ -33,6 +33,7 @@ type contractRun struct {
 	mods     []modSpec
 	hasMods  bool
 	isLemma  bool
+	asCallee bool
 }
 
 func (c *VC) staticCallee(call *ast.CallExpr) *types.Func {
